@@ -29,6 +29,7 @@ _real_Condition = threading.Condition
 _tl = threading.local()
 
 ACTIVE = None  # the Scheduler of the schedule being executed, or None
+HUNG = False  # set when a wall-clock watchdog fired: some thread blocks outside the scheduler's control; give the case up
 RELEASE_HOOKS = []  # callables(lock) run while the lock is still held, just before it is released
 INSTALLED = False
 TOOL = 0  # sys.monitoring.DEBUGGER_ID
@@ -50,42 +51,57 @@ def _caller_in_eliot(depth=2):
 
 
 class SchedLock(object):
-    def __init__(self, reentrant=False):
-        self._real = _real_RLock() if reentrant else _real_Lock()
-        self._reentrant = reentrant
-        self._vf_owner = None  # name of the registered thread holding it (for deadlock diagnosis)
-        self._vf_depth = 0
+    """Scheduler-aware lock. The re-entrant flavour is implemented here (owner + count on top of a plain lock) so that it can be
+    handed to threading.Condition, which needs _release_save / _acquire_restore / _is_owned."""
 
-    def acquire(self, blocking=True, timeout=-1):
+    def __init__(self, reentrant=False):
+        self._real = _real_Lock()
+        self._reentrant = reentrant
+        self._owner_ident = None
+        self._count = 0
+        self._vf_owner = None  # name of the registered thread holding it (for deadlock diagnosis)
+
+    def _acquire_real(self, blocking=True, timeout=-1):
         s = ACTIVE
         if s is None or not blocking or s.me() is None:
             if not blocking:
                 return self._real.acquire(False)
             return self._real.acquire(True, timeout)
         s.blocking_op(lambda: self._real.acquire(False), "lock", self)
-        self._vf_owner = s.me()
-        self._vf_depth += 1
         return True
 
+    def acquire(self, blocking=True, timeout=-1):
+        me = _thread.get_ident()
+        if self._reentrant and self._owner_ident == me:
+            self._count += 1
+            return True
+        ok = self._acquire_real(blocking, timeout)
+        if ok:
+            self._owner_ident = me
+            self._count = 1
+            s = ACTIVE
+            self._vf_owner = s.me() if s is not None else None
+        return ok
+
     def release(self):
-        s = ACTIVE
+        if self._reentrant:
+            if self._owner_ident != _thread.get_ident():
+                raise RuntimeError("cannot release un-acquired lock")
+            if self._count > 1:
+                self._count -= 1
+                return
         if RELEASE_HOOKS:
             for hk in list(RELEASE_HOOKS):
                 hk(self)
-        if self._vf_depth > 0:
-            self._vf_depth -= 1
-            if self._vf_depth == 0:
-                self._vf_owner = None
+        self._owner_ident = None
+        self._count = 0
+        self._vf_owner = None
         self._real.release()
+        s = ACTIVE
         if s is not None:
             s.state_changed()
 
     def locked(self):
-        if self._reentrant:
-            if self._real.acquire(False):
-                self._real.release()
-                return False
-            return True
         return self._real.locked()
 
     def __enter__(self):
@@ -95,8 +111,26 @@ class SchedLock(object):
     def __exit__(self, *a):
         self.release()
 
+    # --- protocol used by threading.Condition
     def _is_owned(self):
-        return self._real._is_owned() if self._reentrant else self.locked()
+        if self._reentrant:
+            return self._owner_ident == _thread.get_ident()
+        return self._real.locked()
+
+    def _release_save(self):
+        state = (self._count, self._owner_ident, self._vf_owner)
+        self._count = 0
+        self._owner_ident = None
+        self._vf_owner = None
+        self._real.release()
+        s = ACTIVE
+        if s is not None:
+            s.state_changed()
+        return state
+
+    def _acquire_restore(self, state):
+        self._acquire_real(True)
+        self._count, self._owner_ident, self._vf_owner = state
 
 
 def Lock():
@@ -159,6 +193,12 @@ class SchedCondition(_real_Condition):
     """threading.Condition whose untimed wait() by a registered thread is a scheduler switch point instead of a C-level block.
 
     queue.Queue / LifoQueue / threading.Event build on Condition, so code under test that switches to those stays schedulable."""
+
+    def __init__(self, lock=None):
+        if lock is None and _caller_in_eliot():
+            # code under test may run (and be suspended by the scheduler) while holding the condition's lock
+            lock = SchedLock(True)
+        _real_Condition.__init__(self, lock)
 
     def wait(self, timeout=None):
         s = ACTIVE
@@ -537,7 +577,11 @@ class WorkerThread(SchedThread):
 
 def run_schedule(plan, workers, timeout=60.0):
     """workers: {name: callable}. Runs them under `plan`. Returns (stats, errors dict name -> exception)."""
-    global ACTIVE
+    global ACTIVE, HUNG
+    if HUNG:
+        st = Scheduler(plan, list(workers)).stats()
+        st["aborted"] = "skipped: an earlier schedule of this case hung outside the scheduler's control"
+        return st, {}
     s = Scheduler(plan, list(workers))
     ACTIVE = s
     ths = [WorkerThread(s, n, f) for n, f in workers.items()]
@@ -550,6 +594,7 @@ def run_schedule(plan, workers, timeout=60.0):
             _real_Thread.join(t, max(0.01, left))
             if t.is_alive():
                 s.abort("wall-clock watchdog (%ss)" % timeout)
+                HUNG = True
         for t in ths:
             _real_Thread.join(t, 5.0)
         # dynamic threads started by the code under test
